@@ -201,6 +201,14 @@ func (p *Path) where() string {
 	return p.curFn[len(p.curFn)-1].String()
 }
 
+// codecConfusion: the code under test read a stored value with a different decoder than the one
+// that wrote it (a proto-marshalled value read as a raw integer, raw bytes or another message type
+// fed to Unmarshal). The byte-level outcome is outside the encoding (VBlob is opaque), so the path
+// ends here with a candidate violation whose verdict is left to the native replay.
+type codecConfusion struct {
+	Site, Msg string
+}
+
 func (p *Path) goPanicf(format string, a ...interface{}) {
 	msg := fmt.Sprintf(format, a...)
 	panic(goPanic{Val: VIface{Ty: types.Typ[types.String], Val: VStr{StrC(msg)}}, Site: p.where(), Msg: msg})
